@@ -122,9 +122,9 @@ func cmdCheck(args []string) {
 		}
 	}
 	start := time.Now()
-	timeout := 40
+	timeout := 60
 	if *tier == "thorough" {
-		timeout = 120
+		timeout = 180
 	}
 	id := *prop
 	outDir := filepath.Join(*verifDir, "out", "vc", id)
